@@ -285,10 +285,11 @@ def _wrap(args):
         return p.dump()
 
 
-def pmap(fn, items, jobs: int | None = None, chunksize: int = 1):
+def pmap(fn, items, jobs: int | None = None, chunksize: int = 1, fresh: bool = False):
     """Run fn(item) for every item in forked workers; yields results in completion order.
     fn must be a module-level function.  Work order is permuted by VERIF_SEED (the explored set
-    is the same for every seed)."""
+    is the same for every seed).  fresh=True: every item runs in a newly forked worker (no state carried
+    from one item to the next), for code under test whose behaviour depends on process history."""
     items = list(items)
     s = seed()
     if s:
@@ -301,7 +302,7 @@ def pmap(fn, items, jobs: int | None = None, chunksize: int = 1):
             yield _wrap((fn, it))
         return
     ctx = mp.get_context("fork")
-    with ctx.Pool(min(jobs, len(items))) as pool:
+    with ctx.Pool(min(jobs, len(items)), maxtasksperchild=1 if fresh else None) as pool:
         yield from pool.imap_unordered(_wrap, [(fn, it) for it in items], chunksize=chunksize)
 
 
